@@ -68,6 +68,7 @@ func Dir() string {
 			d, _ = os.MkdirTemp("", "coresim-")
 		}
 		fixDir = d
+		vrt.AtExit(func() { os.RemoveAll(d) })
 		os.MkdirAll(filepath.Join(d, "repo", ".git"), 0o755)
 		os.MkdirAll(filepath.Join(d, "repo", "workflows"), 0o755)
 		os.MkdirAll(filepath.Join(d, "repo", "tasks"), 0o755)
